@@ -62,7 +62,7 @@ PROBES = ['replies_reordered', 'replies_held_late', 'handle_sequences',
           'short_reads_served', 'read_error_injected',
           'write_error_injected', 'early_eof', 'op_raised', 'op_ok',
           'parallel_requests', 'real_server', 'storage_short_reads',
-          'storage_partial_write', 'storage_full', 'sparse_copy', 'hole_layouts',
+          'storage_partial_write', 'storage_full', 'size_withheld_refused', 'sparse_copy', 'hole_layouts',
           'trailing_hole']
 
 _base = [None]
@@ -147,8 +147,13 @@ def gen_plan(rng):
                                                  1000])
                                      for _ in range(rng.between(1, 5))]
 
-        f = rng.weighted([('none', 55), ('read_error', 15),
-                          ('write_error', 15), ('early_eof', 15)])
+        f = rng.weighted([('none', 50), ('read_error', 15),
+                          ('write_error', 15), ('early_eof', 15),
+                          ('no_size', 5)])
+
+        if f == 'no_size':
+            # the server's attributes do not carry a size (it is optional)
+            policy['no_size'] = True
 
         if f == 'read_error':
             policy['read_error_at'] = rng.below(12)
@@ -711,7 +716,11 @@ def run_plan(plan, sched_seed=None, sched_replay=None):
             else:
                 sim.probes['op_raised'] += 1
 
-                if not rec['error_injected'] and not rec['early_eof'] and \
+                if policy.get('no_size'):
+                    # without a size the client may refuse; it must not
+                    # invent one
+                    sim.probes['size_withheld_refused'] += 1
+                elif not rec['error_injected'] and not rec['early_eof'] and \
                         not rec['disk_full'] and not (s and s.bad_replies):
                     world.violation(
                         'spurious-failure',
